@@ -136,11 +136,24 @@ class Loop:
         defs = [(n, rhs) for n, rhs in self.outside_defs(key) if n.id < self.loop.id or (self.init is not None and _inside(n, self.init))]
         if not defs:
             return {key: 1}           # a parameter / member that is not assigned before the loop: its own symbol
-        n, rhs = max(defs, key=lambda d: d[0].id)
-        # the latest textual definition must dominate the loop (be unconditional relative to it)
         g = self.fn.cfg
-        wl, wd = g.where_node(self.loop.child('cond') or self.loop), g.where_node(n)
-        if wl is None or wd is None or not g.dominates(wd, wl):
+        wl = g.where_node(self.loop.child('cond') or self.loop)
+        if wl is None:
+            return None
+        # definitions in a branch that cannot reach this loop (e.g. the sibling loop of the other orientation) do not count
+        from .linear import _reach
+        reaching = []
+        for n, rhs in defs:
+            wd = g.where_node(n)
+            if wd is None:
+                return None
+            if wd == wl or _reach(g, wd, wl):
+                reaching.append((n, rhs, wd))
+        if not reaching:
+            return {key: 1}
+        n, rhs, wd = max(reaching, key=lambda d: d[0].id)
+        # the latest textual definition must dominate the loop (be unconditional relative to it)
+        if not g.dominates(wd, wl):
             return None
         if rhs is None:
             return None
@@ -171,6 +184,14 @@ class Loop:
             if len(ds) == 1 and ds[0][1] is not None:
                 return self.fold(ds[0][1])
         return None
+
+    @staticmethod
+    def fold_static(fn, cond, bools):
+        """truth value of a condition under `bools` without a loop context (for pruning executed statements)"""
+        lp = Loop.__new__(Loop)
+        lp.fn, lp.bools, lp.loop, lp.init = fn, bools, None, None
+        lp.outside_defs = lambda key: [(n, n.child('init')) for n in fn.walk() if n.k == 'VarDecl' and 'v%d:%s' % (n.d, n.n) == key]
+        return lp.fold(cond)
 
     def lin(self, e, at=None, at_entry=False, depth=0):
         """linear form of an integer- or pointer-valued expression evaluated at node `at` (default: e itself) in
